@@ -623,3 +623,266 @@ func ruleR049(c *Ctx) {
 		c.Undecided("repo#error-decorators", token.NoPos, "no error decorator with a loop found")
 	}
 }
+
+// ---------------------------------------------------------------------------
+// R04.10 optional handlers are not dereferenced unchecked at Generate time
+
+// ruleR0410: the generator's handlers (closure, list, map, method handler,
+// custom generator, ...) are optional: interface typed fields that some code
+// tests against nil. A method call on such a field inside a generated closure
+// runs at evaluation time, where the recover of the generated function turns a
+// nil dereference into an error. At Generate time nothing recovers: there the
+// call has to be dominated by the nil test of that field.
+func ruleR0410(c *Ctx) {
+	a := c.genAnchors()
+	if len(a.missing) > 0 {
+		c.Undecided(strings.Join(a.missing, ","), token.NoPos, "anchors not found")
+		return
+	}
+	info := a.fg.TypesInfo
+	fgType := LookupType(a.fg, "FunctionGenerator")
+	if fgType == nil {
+		c.Undecided("funcGen.FunctionGenerator", token.NoPos, "not found")
+		return
+	}
+	// optional fields: interface typed fields of FunctionGenerator compared with nil somewhere
+	// (by name: the field objects of a generic type differ between its instantiations in the methods)
+	optional := map[string]bool{}
+	for _, f := range a.fg.Syntax {
+		ast.Inspect(f, func(x ast.Node) bool {
+			be, ok := x.(*ast.BinaryExpr)
+			if !ok || (be.Op != token.EQL && be.Op != token.NEQ) {
+				return true
+			}
+			if y, ok := ast.Unparen(be.Y).(*ast.Ident); !ok || y.Name != "nil" {
+				return true
+			}
+			if sel, ok := ast.Unparen(be.X).(*ast.SelectorExpr); ok {
+				if fs, ok := info.Selections[sel]; ok && fs.Kind() == types.FieldVal {
+					if _, isIface := fs.Obj().Type().Underlying().(*types.Interface); isIface && isNamed(fs.Recv(), modPath+"/funcGen", "FunctionGenerator") {
+						optional[fs.Obj().Name()] = true
+					}
+				}
+			}
+			return true
+		})
+	}
+	if len(optional) < 2 {
+		c.Undecided("funcGen.FunctionGenerator#optional-handlers", token.NoPos, "only %d optional handler fields found", len(optional))
+		return
+	}
+	fwd := c.forwarders(a)
+	n := 0
+	for _, gi := range c.generatorFuncs(a, fwd) {
+		if gi.pkg != a.fg {
+			continue
+		}
+		gname := declName(gi.pkg, gi.decl)
+		k := 0
+		ast.Inspect(gi.decl.Body, func(x ast.Node) bool {
+			if lit, ok := x.(*ast.FuncLit); ok {
+				// run time code: recovered by the generated function
+				if lit.Type.Params != nil && len(lit.Type.Params.List) > 0 && a.isStack(info.TypeOf(lit.Type.Params.List[0].Type)) {
+					return false
+				}
+				return true
+			}
+			call, ok := x.(*ast.CallExpr)
+			if !ok {
+				return true
+			}
+			msel, ok := ast.Unparen(call.Fun).(*ast.SelectorExpr)
+			if !ok {
+				return true
+			}
+			fsel, ok := ast.Unparen(msel.X).(*ast.SelectorExpr)
+			if !ok {
+				return true
+			}
+			fs, ok := info.Selections[fsel]
+			if !ok || fs.Kind() != types.FieldVal || !optional[fs.Obj().Name()] || !isNamed(fs.Recv(), modPath+"/funcGen", "FunctionGenerator") {
+				return true
+			}
+			n++
+			k++
+			key := fmt.Sprintf("%s#generate-time-handler-call[%d]:%s.%s", gname, k, fsel.Sel.Name, msel.Sel.Name)
+			guarded := false
+			for _, gd := range c.GuardsDeep(call) {
+				be, ok := ast.Unparen(gd.Cond).(*ast.BinaryExpr)
+				if !ok {
+					continue
+				}
+				if y, ok := ast.Unparen(be.Y).(*ast.Ident); !ok || y.Name != "nil" {
+					continue
+				}
+				if gs, ok := ast.Unparen(be.X).(*ast.SelectorExpr); ok {
+					if g2, ok := info.Selections[gs]; ok && g2.Obj().Name() == fs.Obj().Name() {
+						if (be.Op == token.NEQ && gd.Val) || (be.Op == token.EQL && !gd.Val) {
+							guarded = true
+						}
+					}
+				}
+			}
+			if guarded {
+				c.OK(key, call.Pos(), "called at Generate time under the nil test of the optional handler")
+			} else {
+				c.Violation(key, call.Pos(), "the optional handler %s is called at Generate time without a nil test: a generator configured without it (e.g. example/minimal.go has no closure handler) panics in Generate with a nil dereference instead of returning an error or a function", fsel.Sel.Name)
+			}
+			return true
+		})
+	}
+	if n == 0 {
+		c.OK("funcGen#generate-time-handler-calls", token.NoPos, "no optional handler (%d fields) is called at Generate time outside the generated closures", len(optional))
+	}
+}
+
+// ---------------------------------------------------------------------------
+// R04.11 a scope lookup asks its parent scope at most once
+
+// ruleR0411: identifier scopes are chains of closures, one link per nesting
+// level of the program. A lookup that calls its parent lookup twice on one
+// path costs 2^depth parent calls for a name that is resolved at the bottom of
+// the chain: Parse and Generate then need time exponential in the nesting
+// depth of closures. Forward max-analysis on the CFG of every lookup function
+// (literal or method value) returned by a method of Identifiers; calls of
+// other methods on the parent count with their own maximum.
+func ruleR0411(c *Ctx) {
+	root := c.Pkg("")
+	if root == nil {
+		c.Undecided("package parser2", token.NoPos, "not found")
+		return
+	}
+	info := root.TypesInfo
+	isScope := func(t types.Type) bool { return isNamed(t, modPath, "Identifiers") }
+	// maxCalls: the maximal number (capped at 2) of calls of the scope value `parent` on a path through fn
+	var maxCalls func(fn ast.Node, body *ast.BlockStmt, isParent func(ast.Expr) bool, depth int) int
+	maxCalls = func(fn ast.Node, body *ast.BlockStmt, isParent func(ast.Expr) bool, depth int) int {
+		g := c.CFG(fn)
+		if g == nil {
+			return 0
+		}
+		count := func(n ast.Node) int {
+			k := 0
+			ast.Inspect(n, func(x ast.Node) bool {
+				if _, isLit := x.(*ast.FuncLit); isLit {
+					return false
+				}
+				call, ok := x.(*ast.CallExpr)
+				if !ok {
+					return true
+				}
+				if isParent(call.Fun) {
+					k++
+					return true
+				}
+				// a method of the scope type called on the parent: counts with its own maximum
+				if sel, ok := ast.Unparen(call.Fun).(*ast.SelectorExpr); ok && isParent(sel.X) && depth < 2 {
+					if cal := Callee(info, call); cal != nil {
+						if md := findFuncDecl(root, cal); md != nil && md.Body != nil && md.Recv != nil && len(md.Recv.List[0].Names) == 1 {
+							recv := info.Defs[md.Recv.List[0].Names[0]]
+							// only methods that run the lookup themselves (not the constructors, which return a new scope)
+							if sig := cal.Type().(*types.Signature); sig.Results().Len() == 1 && isScope(sig.Results().At(0).Type()) {
+								return true
+							}
+							k += maxCalls(md, md.Body, func(e ast.Expr) bool {
+								id, ok := ast.Unparen(e).(*ast.Ident)
+								return ok && info.ObjectOf(id) == recv
+							}, depth+1)
+						}
+					}
+				}
+				return true
+			})
+			return k
+		}
+		nb := len(g.G.Blocks)
+		in := make([]int, nb)
+		reached := make([]bool, nb)
+		reached[0] = true
+		best := 0
+		for iter, changed := 0, true; changed && iter < 6*nb+8; iter++ {
+			changed = false
+			for b := 0; b < nb; b++ {
+				if !reached[b] {
+					continue
+				}
+				out := in[b]
+				for _, n := range g.G.Blocks[b].Nodes {
+					out += count(n)
+				}
+				if out > 2 {
+					out = 2
+				}
+				if out > best {
+					best = out
+				}
+				for _, s := range g.G.Blocks[b].Succs {
+					si := int(s.Index)
+					if !reached[si] || out > in[si] {
+						if !reached[si] || out > in[si] {
+							changed = true
+						}
+						reached[si] = true
+						if out > in[si] {
+							in[si] = out
+						}
+					}
+				}
+			}
+		}
+		return best
+	}
+	n := 0
+	for _, f := range root.Syntax {
+		for _, d := range f.Decls {
+			fd, ok := d.(*ast.FuncDecl)
+			if !ok || fd.Body == nil || fd.Recv == nil || recvTypeName(fd.Recv.List[0].Type) != "Identifiers" || len(fd.Recv.List[0].Names) != 1 {
+				continue
+			}
+			obj, _ := info.Defs[fd.Name].(*types.Func)
+			if obj == nil {
+				continue
+			}
+			if sig := obj.Type().(*types.Signature); sig.Results().Len() != 1 || !isScope(sig.Results().At(0).Type()) {
+				continue
+			}
+			recv := info.Defs[fd.Recv.List[0].Names[0]]
+			for _, rf := range c.returnedFuncs(root, fd) {
+				n++
+				key := declName(root, fd) + "#parent-lookups"
+				var isParent func(e ast.Expr) bool
+				if rf.bind == nil {
+					isParent = func(e ast.Expr) bool {
+						id, ok := ast.Unparen(e).(*ast.Ident)
+						return ok && info.ObjectOf(id) == recv
+					}
+				} else {
+					// method value form: the field bound to the constructor's receiver
+					parentField := ""
+					for fname, e := range rf.bind {
+						if id, ok := ast.Unparen(e).(*ast.Ident); ok && info.ObjectOf(id) == recv {
+							parentField = fname
+						}
+					}
+					isParent = func(e ast.Expr) bool {
+						sel, ok := ast.Unparen(e).(*ast.SelectorExpr)
+						if !ok || sel.Sel.Name != parentField {
+							return false
+						}
+						id, ok := ast.Unparen(sel.X).(*ast.Ident)
+						return ok && info.ObjectOf(id) == rf.recv
+					}
+				}
+				m := maxCalls(rf.fn, rf.body, isParent, 0)
+				if m >= 2 {
+					c.Violation(key, rf.fn.Pos(), "the lookup function asks its parent scope more than once on some path (directly or through a method of the parent): resolving a name costs 2^d parent calls for d nested closures, Parse and Generate need exponential time (a 200 byte program of 64 nested closures does not return)")
+				} else {
+					c.OK(key, rf.fn.Pos(), "on every path the parent scope is asked at most once (%d): a lookup is linear in the nesting depth", m)
+				}
+			}
+		}
+	}
+	if n < 3 {
+		c.Undecided("parser2.Identifiers#lookup-functions", token.NoPos, "only %d lookup functions found", n)
+	}
+}
